@@ -71,6 +71,10 @@ class Interp:
         self.trace = []
         self.cover = None       # {body path: set of executed blocks} when a rule wants to know which paths its scenarios took
 
+    def concrete_index(self, idx):
+        """hook: a domain that can enumerate the values of an index (engine V forks over a small range) returns one of them"""
+        return idx
+
     # ------------------------------------------------------------ memory
     def read_place(self, fr, p):
         v = fr.locals.get(p["l"], UNKNOWN)
@@ -106,7 +110,7 @@ class Interp:
                 else:
                     return UNKNOWN
             elif isinstance(e, dict) and "i" in e:
-                idx = fr.locals.get(e["i"], UNKNOWN)
+                idx = self.concrete_index(fr.locals.get(e["i"], UNKNOWN))
                 if isinstance(v, tuple) and v[0] == "array" and isinstance(idx, int) and idx < len(v[1]):
                     win = len(v) > 2 and v[2] == "window"
                     v = v[1][idx]
@@ -1025,11 +1029,32 @@ def m_int_op(name):
             r = {"wrapping_sub": lambda: a - b, "wrapping_add": lambda: a + b, "wrapping_mul": lambda: a * b}[name]()
         elif name == "abs_diff":
             r = abs(a - b)
-        elif name == "unsigned_abs":
+        elif name in ("unsigned_abs", "abs"):
             r = abs(a)
         else:
             return NotImplemented
         return r & ((1 << bits) - 1)
+    return f
+
+
+def m_int_bits(name):
+    """leading_zeros / trailing_zeros / count_ones on integer constants (the width from the impl the call resolves to)"""
+    def f(it, args, callee, depth):
+        v = deref_all(it, args[0])
+        if not isinstance(v, int) or isinstance(v, bool):
+            return NotImplemented
+        import re as _re6
+        c_ = callee or {}
+        m = _re6.search(r"<impl ([iu](?:8|16|32|64|128|size))>", " ".join([c_.get("path", ""), c_.get("full", "")]))
+        if not m:
+            return NotImplemented
+        bits = INT_BITS.get(m.group(1), 64)
+        v &= (1 << bits) - 1
+        if name == "count_ones":
+            return bin(v).count("1")
+        if name == "leading_zeros":
+            return bits - v.bit_length()
+        return bits if v == 0 else (v & -v).bit_length() - 1
     return f
 
 
@@ -1353,7 +1378,12 @@ STD_MODELS = [
     (">::wrapping_add", m_int_op("wrapping_add")),
     (">::wrapping_mul", m_int_op("wrapping_mul")),
     (">::abs_diff", m_int_op("abs_diff")),
+    (">::leading_zeros", m_int_bits("leading_zeros")),
+    (">::trailing_zeros", m_int_bits("trailing_zeros")),
+    (">::count_ones", m_int_bits("count_ones")),
+    ("ops::range::RangeInclusive::<Idx>::new", lambda it, args, callee, depth: ("adt", "core::ops::range::RangeInclusive", "RangeInclusive", [deref_all(it, args[0]), deref_all(it, args[1]), 0])),
     (">::unsigned_abs", m_int_op("unsigned_abs")),
+    ("i32>::abs", m_int_op("abs")), ("i64>::abs", m_int_op("abs")), ("i16>::abs", m_int_op("abs")), ("i8>::abs", m_int_op("abs")), ("isize>::abs", m_int_op("abs")),
     ("core::ops::try_trait::Try::branch", m_try_branch),
     ("core::ops::try_trait::FromResidual::from_residual", m_from_residual),
     ("core::ops::index::Index::index", m_index),
